@@ -130,7 +130,7 @@ def gen_steady(rnd, spec):
         s = {"id": sid, "flavour": flavour, "program": rnd.choice([[["beat", 0.02, None]], [["sleep", 0.01]]]) if flavour != "threading" else [["block"]]}
         # the class of the service: decorated directly, a plain subclass of that, one whose instances are falsy (an empty
         # container), or a subclass that is declared a service once more - of the same or of the other coroutine flavour
-        s["shape"] = rnd.choice(["plain", "plain", "subclass", "falsy", "redecorated", "valued", "valued"])
+        s["shape"] = rnd.choice(["plain", "plain", "subclass", "falsy", "redecorated", "valued", "valued", "own_init", "own_init"])
         if s["shape"] == "redecorated" and flavour in common.COROUTINE and rnd.random() < 0.5:
             s["base_flavour"] = "trio" if flavour == "asyncio" else "asyncio"
         where = rnd.choice(["before", "driver", "late", "inside"])
@@ -533,7 +533,7 @@ def finish(total, tier):
             "window_adopts_judged", "adopts_in_shutdown_window_inside", "adopts_in_shutdown_window_outside",
             "scenarios_with_concurrent_registration_before_start", "forced_redecorated_schedules_checked",
             "scenarios_in_the_second_run_of_the_same_runner", "payloads_queued_on_a_runner_that_is_never_started", "adopts_in_the_last_moments_of_the_closing", "plain_callables_called_inside_their_runner"]
-    need += ["services_of_shape_%s_started_exactly_once" % k for k in ("plain", "subclass", "falsy", "redecorated", "valued")]
+    need += ["services_of_shape_%s_started_exactly_once" % k for k in ("plain", "subclass", "falsy", "redecorated", "valued", "own_init")]
     need += ["payloads_adopted_repeatedly_before_start"]
     for name in need:
         if not total.counters.get(name) and not total.violations:
